@@ -364,18 +364,21 @@ _SCALAR_SPACES = ["DP0", "DP1", "P1"]
 _VECTOR_SPACES = ["RWG", "BC"]
 
 
-def shards(tier):
-    n = 1 if tier == "quick" else 8
+def shards(tier, seed=1):
+    from vlib.pbt import rot
+
+    q = tier == "quick"
+    n = 1 if q else 8
     out = []
-    for fam in ("laplace", "helmholtz", "modified"):
-        for op in ("V", "K"):
-            out.append({"check": "values", "fam": fam, "op": op, "examples": 12 * n, "budget_s": 120 * n})
-        out.append({"check": "pde", "fam": fam, "examples": 6 * n, "budget_s": 150 * n})
-    for op in ("E", "M"):
-        out.append({"check": "values", "fam": "maxwell", "op": op, "examples": 8 * n, "budget_s": 150 * n})
-    out.append({"check": "pde", "fam": "maxwell", "examples": 4 * n, "budget_s": 200 * n})
-    for fam, op in (("helmholtz", "V"), ("helmholtz", "K"), ("maxwell", "E"), ("maxwell", "M")):
-        out.append({"check": "farfield", "fam": fam, "op": op, "examples": 8 * n, "budget_s": 150 * n})
+    vals = [(f, o) for f in ("laplace", "helmholtz", "modified") for o in ("V", "K")] + [("maxwell", "E"), ("maxwell", "M")]
+    for fam, op in (rot(vals, seed, 2) if q else vals):
+        out.append({"check": "values", "fam": fam, "op": op, "examples": 14 * n, "budget_s": 240 * n})
+    pd = ["helmholtz", "maxwell", "laplace", "modified"]
+    for fam in (rot(pd, seed, 1) if q else pd):
+        out.append({"check": "pde", "fam": fam, "examples": 6 * n, "budget_s": 300 * n})
+    ff = [("helmholtz", "V"), ("maxwell", "E"), ("helmholtz", "K"), ("maxwell", "M")]
+    for fam, op in (rot(ff, seed, 2) if q else ff):
+        out.append({"check": "farfield", "fam": fam, "op": op, "examples": 10 * n, "budget_s": 260 * n})
     return out
 
 
@@ -417,5 +420,8 @@ def strategy(spec):
 
 
 def required_labels(tier):
-    return ["values", "pde", "farfield", "complex_k", "real_k", "complex_coeffs", "segment", "laplace_V", "laplace_K", "helmholtz_V",
-            "helmholtz_K", "modified_V", "modified_K", "maxwell_E", "maxwell_M"]
+    return ["values", "pde", "farfield", "real_k"] if tier == "quick" else [
+        "values", "pde", "farfield", "complex_k", "real_k", "complex_coeffs", "segment", "laplace_V", "laplace_K", "helmholtz_V",
+        "helmholtz_K", "modified_V", "modified_K", "maxwell_E", "maxwell_M"]
+
+
